@@ -181,6 +181,47 @@ def make_fake_datetime_module(clock: SimClock):
     return _Mod()
 
 
+class ClockSeam:
+    """Everything through which code can learn the time, owned by the simulator:
+    module globals of the code under test that *are* the real datetime module, the
+    datetime / date classes or time functions (under whatever name they were
+    imported), `sys.modules['datetime']` for imports made at call time, and the
+    functions of module `time`."""
+
+    def __init__(self, clock, module):
+        self.clock, self.module = clock, module
+        self.fake_dt = make_fake_datetime_module(clock)
+        self.fake_time = FakeTime(clock)
+        self.saved = {}
+        self.saved_sysmod = None
+
+    def install(self):
+        import sys
+        self.fake_time.install()
+        fakes = self.fake_time.fakes
+        real = {id(_real_datetime): self.fake_dt,
+                id(_real_datetime.datetime): self.fake_dt.datetime,
+                id(_real_datetime.date): self.fake_dt.date}
+        for name, f in fakes.items():
+            real[id(self.fake_time._saved[name])] = f
+        for k, v in list(vars(self.module).items()):
+            r = real.get(id(v))
+            if r is not None and not k.startswith("__"):
+                self.saved[k] = v
+                setattr(self.module, k, r)
+        self.saved_sysmod = sys.modules.get("datetime")
+        sys.modules["datetime"] = self.fake_dt
+
+    def uninstall(self):
+        import sys
+        for k, v in self.saved.items():
+            setattr(self.module, k, v)
+        self.saved = {}
+        if self.saved_sysmod is not None:
+            sys.modules["datetime"] = self.saved_sysmod
+        self.fake_time.uninstall()
+
+
 class FakeTime:
     """Patch for module `time`: time(), localtime(), gmtime(), strftime() read
     the simulated clock (simulated zone is UTC)."""
@@ -194,11 +235,15 @@ class FakeTime:
         rt = _real_time
         self._saved = {n: getattr(rt, n) for n in ("time", "localtime", "gmtime", "strftime")}
         real_gmtime, real_strftime = rt.gmtime, rt.strftime
-        rt.time = lambda: c.read()
-        rt.gmtime = lambda secs=None: real_gmtime(c.read() if secs is None else secs)
-        rt.localtime = lambda secs=None: real_gmtime(c.read() if secs is None else secs)
-        rt.strftime = lambda fmt, t=None: real_strftime(
-            fmt, real_gmtime(c.read()) if t is None else t)
+        self.fakes = {
+            "time": lambda: c.read(),
+            "gmtime": lambda secs=None: real_gmtime(c.read() if secs is None else secs),
+            "localtime": lambda secs=None: real_gmtime(c.read() if secs is None else secs),
+            "strftime": lambda fmt, t=None: real_strftime(
+                fmt, real_gmtime(c.read()) if t is None else t),
+        }
+        for n, f in self.fakes.items():
+            setattr(rt, n, f)
 
     def uninstall(self):
         for n, f in self._saved.items():
